@@ -318,6 +318,8 @@ impl super::MainState {
                     // add new user to hash map
                     let user_state = &mut conn_state.user_state;
                     user_state.registered = registered;
+                    #[cfg(simple_irc_server_verif)]
+                    verif::race_point(2).await;
                     let mut state = self.state.write().await;
                     if !state.users.contains_key(&user_nick) {
                         let user = User::new(
@@ -475,6 +477,8 @@ impl super::MainState {
     ) -> Result<(), Box<dyn Error>> {
         if !conn_state.user_state.authenticated {
             if !self.state.read().await.users.contains_key(nick) {
+                #[cfg(simple_irc_server_verif)]
+                verif::race_point(1).await;
                 conn_state.user_state.set_nick(nick.to_string());
                 // try authentication
                 self.authenticate(conn_state).await?;
@@ -484,6 +488,8 @@ impl super::MainState {
                     .await?;
             }
         } else {
+            #[cfg(simple_irc_server_verif)]
+            verif::race_point(3).await;
             let mut statem = self.state.write().await;
             let state = statem.deref_mut();
             let old_nick = conn_state.user_state.nick.as_ref().unwrap().to_string();
